@@ -397,6 +397,19 @@ def run(rep: C.Report, tier: str) -> int:
         rep.obligation(False, 5)
         rep.violation("C12/proof", f"proof obligation no longer checks: {_e.what}",
                       {"theorem_or_correspondence": _e.what, "log": _e.log[-1000:]}, False)
+    try:      # cumulative-function clauses as theorems (exact cdf monotone / limits / derivative; truncation bound with eps = Phi(-3.5))
+        _cdf = ["C12_exact_cdf_monotone", "C12_exact_cdf_strictly_increasing", "C12_exact_cdf_range", "C12_exact_cdf_limits",
+                "C12_exact_cdf_derivative", "C12_exact_cdf_integral", "C12_exact_cdf_at_monotone", "C12_exact_cdf_at_integral",
+                "C12_Phi_tail_sharp", "C12_Phi_tail_value", "C12_cdf_truncation_bound_lists", "C12_cdf_truncation_bound",
+                "C12_cdf_monotone_across_regions", "C12_cdf_monotone_across_regions_uniform", "C12_cdf_range",
+                "C12_cdf_far_left", "C12_cdf_far_right", "C12_exact_cdf_far_left", "C12_exact_cdf_far_right"]
+        _a = C.coq_audit("C12_cdf", _cdf, "IT.Properties.C12Cdf")
+        rep.obligation(True, len(_cdf))
+        rep.coverage["cdf_theorems_audit"] = _a
+    except C.ProofFailure as _e:
+        rep.obligation(False, 19)
+        rep.violation("C12/proof", f"proof obligation no longer checks: {_e.what}",
+                      {"theorem_or_correspondence": _e.what, "log": _e.log[-1000:]}, False)
     lap("audit")
 
     from concurrent.futures import ThreadPoolExecutor
@@ -679,8 +692,10 @@ def run(rep: C.Report, tier: str) -> int:
         "np.sort / np.linspace / np.searchsorted(side=left) / np.unique semantics as modelled; order inside an index "
         "group is unspecified (argsort is not stable) and compared as a set",
         "scipy.special.erf is the error function: Phi z = (1 + erf(z/sqrt 2))/2 = 1/2 + int_0^z phi",
-        "NOT PROVED: the exact KDE integrates to one and Phi(3.5) >= 1 - 2.33e-4 (Gaussian integral); cdf monotone "
-        "across regions and the limits 0 / 1 are decided by runs [R], not by a theorem; optimality of the "
+        "proved since (Properties/GaussNorm.v, Properties/C12Cdf.v): the exact KDE integrates to one, its cdf is monotone "
+        "with limits 0 / 1 and derivative = pdf, Phi(-3.5) in (2.32e-4, 2.33e-4), the truncated cdf is within "
+        "(excluded/N) Phi(-3.5) of the exact one, monotone across regions up to that slack and within it of 0 / 1 far "
+        "outside the data. NOT PROVED: optimality of the "
         "cross-validated bandwidth; bandwidth search beyond its first five grid points is tied only by [R] "
         "equivariance runs",
     ]
